@@ -1,7 +1,7 @@
 """C07 - a returned shortest path is a real, optimal, geometrically continuous route"""
 import math
 from core import Stream, q, coq_list, zlit
-from props.C06 import use_subnet, rand_pre, gen_graph, exhaustive_small, arcs_of, bellman_ford, coq_edges, IMPORTS as G_IMPORTS, COMMON as G_COMMON
+from props.C06 import use_subnet, rand_pre, edge_label, gen_graph, exhaustive_small, arcs_of, bellman_ford, coq_edges, IMPORTS as G_IMPORTS, COMMON as G_COMMON
 
 PROP = 'C07'
 THEOREM_FILE = 'Props/C07.v'
@@ -26,12 +26,12 @@ def mid2(eid):
     return [2000.0 + eid, float(2 * eid + 1)]       # a second interior vertex: no edge polyline reads the same in both directions
 
 
-def build_net(edges):
+def build_net(edges, ids='int'):
     from tracklib.core import ENUCoords, Obs, Track, Network, Node, Edge
     net = Network()
     for (eid, s, t, o, w) in edges:
         pts = [pos(s), mid(eid), mid2(eid), pos(t)]
-        e = Edge(eid, Track([Obs(ENUCoords(x, y, 0)) for x, y in pts]))
+        e = Edge(edge_label(eid, ids), Track([Obs(ENUCoords(x, y, 0)) for x, y in pts]))
         e.orientation = o
         e.weight = w
         net.addEdge(e, Node(s, ENUCoords(pos(s)[0], pos(s)[1], 0)), Node(t, ENUCoords(pos(t)[0], pos(t)[1], 0)))
@@ -67,12 +67,12 @@ def generate(rng, n, tier):
         t = rng.choice([v for v in nodes if v != s])
         if tw is not None and rng.random() < 0.6:     # a route that has to go from a node to its twin, or through both
             s, t = rng.choice([(tw, tw + 20), (tw + 20, tw), (s, tw + 20) if s != tw + 20 else (tw, tw + 20)])
-        cases.append({'edges': g, 'src': s, 'tgt': t, 'shared': rng.random() < 0.3, 'edit': rng.random() < 0.3, 'warm': rng.choice(nodes), 'pre': rand_pre(rng)})
+        cases.append({'edges': g, 'src': s, 'tgt': t, 'shared': rng.random() < 0.3, 'edit': rng.random() < 0.3, 'warm': rng.choice(nodes), 'pre': rand_pre(rng), 'ids': rng.choice(['int', 'int', 'str', 'blank'])})
     return cases
 
 
 def run_impl(case):
-    net = build_net(case['edges'])
+    net = build_net(case['edges'], case.get('ids', 'int'))
     use_subnet(net, case)
     if case.get('edit'):            # a route returned earlier is the caller's: editing it in place must not move the network under later queries
         for a, b in ((case['warm'], case['tgt']), (case['src'], case['tgt']), (case['tgt'], case['src'])):
